@@ -386,6 +386,207 @@ def pickled_fields(env):
         cm.__exit__(None, None, None)
 
 
+# ---------------------------------------------------------------------------
+# every snapshot that save_simulation can write is a state from which progress()
+# continues exactly like the uninterrupted run
+# ---------------------------------------------------------------------------
+COVERS_SWEEP = [
+    ("emu_mps/mps_backend_impl.py", "MPSBackendImpl.progress"),
+    ("emu_mps/mps_backend_impl.py", "MPSBackendImpl._left_to_right_update_tdvp"),
+    ("emu_mps/mps_backend_impl.py", "MPSBackendImpl._right_to_left_update_tdvp"),
+    ("emu_mps/mps_backend_impl.py", "MPSBackendImpl.sweep_complete"),
+    ("emu_mps/mps_backend_impl.py", "MPSBackendImpl.timestep_complete"),
+    ("emu_mps/mps_backend_impl.py", "MPSBackendImpl.save_simulation"),
+    ("emu_mps/mps_backend_impl.py", "DMRGBackendImpl.progress"),
+    ("emu_mps/mps_backend_impl.py", "DMRGBackendImpl._left_to_right_update"),
+    ("emu_mps/mps_backend_impl.py", "DMRGBackendImpl._right_to_left_update"),
+    ("emu_mps/mps_backend_impl.py", "DMRGBackendImpl.sweep_complete"),
+]
+
+
+class _Tok:
+    """stands for a tensor the sweep logic only moves around."""
+
+    device = "cpu"
+
+    def __init__(self, name):
+        self.name = name
+
+    def to(self, *a, **k):
+        return self
+
+    def __repr__(self):
+        return self.name
+
+
+class _SweepState:
+    def __init__(self, n, trace):
+        self.factors = [_Tok(f"A{i}") for i in range(n)]
+        self.orthogonality_center = 0
+        self.trace = trace
+
+    def orthogonalize(self, k):
+        self.trace.append(("orthogonalize", k))
+        self.orthogonality_center = k
+        return k
+
+
+def _attach(env, impl, trace, clock_mod):
+    """numerical leaves of the sweep become trace entries; everything that decides *what* is
+    evolved next (progress, the sweep updates, sweep/timestep completion, save_simulation) is real."""
+    T = env.torch
+    n = impl.qubit_count
+
+    def evolve(*indices, dt, orth_center_right=None):
+        trace.append(("evolve", tuple(indices), round(float(dt), 9), orth_center_right, len(impl.left_baths), len(impl.right_baths), impl._timestep_index))
+        if len(indices) == 2:
+            impl.state.orthogonality_center = indices[1] if orth_center_right else indices[0]
+
+    def fill_results():
+        trace.append(("fill_results", impl._timestep_index, round(float(impl.current_time), 9)))
+
+    def update_H():
+        trace.append(("update_H", impl._timestep_index, round(float(impl.target_time), 9)))
+
+    def init_baths():
+        trace.append(("init_baths", impl._timestep_index))
+        impl.left_baths = [_Tok("L0")]
+        impl.right_baths = [_Tok(f"R{i}") for i in range(n - 1)]
+
+    impl._evolve = evolve
+    impl.fill_results = fill_results
+    impl.update_H = update_H
+    impl.init_baths = init_baths
+    impl._get_interaction_matrix = lambda: T.zeros(n, n, dtype=T.float64)
+    impl.statistics = _CallableStats()
+    impl.state.trace = trace
+
+
+class _CallableStats:
+    def __init__(self):
+        self.data = []
+
+    def __call__(self, *a, **k):
+        return None
+
+
+def _fresh_sweep_impl(env, mi, cls_name, n, steps, autosave_dt, fs, trace):
+    T = env.torch
+    impl = object.__new__(getattr(mi, cls_name))
+    impl.config = types.SimpleNamespace(autosave_dt=autosave_dt, precision=1e-5)
+    impl.qubit_count = n
+    impl.timestep_count = steps
+    impl.target_times = [10.0 * k for k in range(steps + 1)]
+    impl.current_time, impl.target_time = 0.0, 10.0
+    impl._timestep_index = 0
+    impl._sweep_index = 0
+    impl._swipe_direction = mi.SwipeDirection.LEFT_TO_RIGHT
+    impl.has_lindblad_noise = False
+    impl.hamiltonian_type, impl.dim, impl.resolved_num_gpus = None, 2, 0
+    impl.current_interaction_matrix = T.zeros(n, n, dtype=T.float64)
+    impl.hamiltonian = types.SimpleNamespace(factors=[_Tok(f"W{i}") for i in range(n)])
+    impl.state = _SweepState(n, trace)
+    impl.left_baths = [_Tok("L0")]
+    impl.right_baths = [_Tok(f"R{i}") for i in range(n - 1)]
+    impl.autosave_file = FakePath(fs, RESUME_FILE)
+    impl.last_save_time = 0.0
+    impl.time = 0.0
+    impl.results = None
+    if cls_name == "DMRGBackendImpl":
+        impl.previous_energy = None
+        impl.current_energy = None
+        impl.sweep_count = 0
+        impl.energy_tolerance = 1e-5
+        impl.max_sweeps = 10
+    return impl
+
+
+def _snapshot(impl, trace):
+    d = dict(impl.__dict__)
+    d["left_baths"] = list(impl.left_baths)
+    d["right_baths"] = list(impl.right_baths)
+    st = _SweepState(impl.qubit_count, None)
+    st.factors = list(impl.state.factors)
+    st.orthogonality_center = impl.state.orthogonality_center
+    d["state"] = st
+    return d, len(trace)
+
+
+def snapshot_consistency(n, steps, cls_name):
+    def fn(env):
+        T = env.torch
+        mi = env.mod("emu_mps.mps_backend_impl")
+        autosave_dt = env.real("autosave_dt", lo=10.0, hi=1000.0)
+        env.assume(autosave_dt > 10.0, "autosave_dt > 10 s (enforced by MPSConfig)")
+        fs = FS({})
+        patch = Patch()
+        snaps = []
+        trace = []
+        impl = _fresh_sweep_impl(env, mi, cls_name, n, steps, autosave_dt, fs, trace)
+
+        class Pk:
+            @staticmethod
+            def dump(obj, fh, *a, **k):
+                snaps.append(_snapshot(obj, trace))
+                fh.put(f"snap{len(snaps)}")
+
+        def min_pair(state_factors, ham_factors, baths, orth_center_right, config, residual_tolerance):
+            owner = cur[0]
+            owner._trace.append(("minimize", owner._sweep_index, orth_center_right, len(owner.left_baths), len(owner.right_baths), owner._timestep_index))
+            # energies: a sweep converges once it repeats the previous sweep's energy
+            e = 5.0 if owner.sweep_count >= 1 else 7.0
+            return _Tok("newL"), _Tok("newR"), e
+
+        cur = [impl]
+        impl._trace = trace
+        try:
+            clock = FakeTime(env, 0.0, max_step=400.0)
+            patch.set(mi, "time", clock)
+            patch.set(mi, "os", FakeOS(fs))
+            patch.set(mi, "open", fs.open)
+            patch.set(mi, "pickle", Pk)
+            patch.set(mi, "logging", types.SimpleNamespace(getLogger=lambda *a: NullLogger()))
+            patch.set(mi, "new_left_bath", lambda *a, **k: _Tok("L+"))
+            patch.set(mi, "new_right_bath", lambda *a, **k: _Tok("R+"))
+            patch.set(mi, "deallocate_tensor", lambda *a, **k: None)
+            patch.set(mi, "minimize_energy_pair", min_pair)
+            _attach(env, impl, trace, clock)
+            guard = 0
+            while not impl.is_finished():
+                impl.progress()
+                guard += 1
+                if guard > 200:
+                    env.fail("uninterrupted run terminates")
+                    break
+            fills = [e for e in trace if e[0] == "fill_results"]
+            env.check([e[1] for e in fills] == list(range(steps)), "uninterrupted run: every time step is completed once, in order")
+            # a crash can leave any of the snapshots written so far as the file on disk
+            frozen = _FrozenClock(0.0)
+            patch.set(mi, "time", frozen)
+            for k, (d, pos) in enumerate(snaps):
+                t2 = []
+                impl2 = object.__new__(type(impl))
+                impl2.__dict__.update(d)
+                impl2.last_save_time = 1.0e9  # no further autosaves in the resumed run
+                impl2._trace = t2
+                cur[0] = impl2
+                _attach(env, impl2, t2, frozen)
+                guard = 0
+                while not impl2.is_finished():
+                    impl2.progress()
+                    guard += 1
+                    if guard > 200:
+                        break
+                rest = trace[pos:]
+                if env.mutant("resume_redoes_a_step"):
+                    rest = rest[1:]
+                env.check(t2 == rest, f"snapshot #{k + 1}: the resumed run performs exactly the evolution steps the uninterrupted run performed after that save")
+        finally:
+            patch.restore()
+
+    return fn
+
+
 META = {
     "explanation": (
         "Two stub implementations (object.__new__ of MPSBackendImpl / NoisyMPSBackendImpl / DMRGBackendImpl) are built in the "
@@ -401,7 +602,11 @@ META = {
         "case runs the real __init__, __getstate__ and __setstate__ and checks that every instance attribute is saved, that the "
         "attributes progress() reads come back with the same (symbolic) values or are never-assigned class defaults, that "
         "Results and the re-created MPSConfig agree with the saved ones (including idempotence of the Krylov-tolerance "
-        "safeguard on symbolic precision/tolerance) and that the live object is not disturbed."
+        "safeguard on symbolic precision/tolerance) and that the live object is not disturbed. A third family runs the real "
+        "progress() state machine (TDVP and DMRG sweeps, sweep_complete, timestep_complete, save_simulation) with the tensor "
+        "kernels replaced by trace entries and a symbolic clock deciding which save_simulation calls are due: for every "
+        "feasible schedule and every snapshot written, progress() restarted from the snapshot's fields must emit exactly the "
+        "trace suffix of the uninterrupted run (no step skipped, repeated or evolved with other bath depths / time steps)."
     ),
     "outside": [
         "byte-level pickle fidelity of the torch-backed MPS/MPO/baths (C serialisation); pickle.load is modelled as returning the saved object",
@@ -440,6 +645,21 @@ def cases(tier):
                 weight=10 * n,
                 max_paths=100000,
                 deadline_s=800,
+            )
+        )
+    sweeps = [(3, 2, "MPSBackendImpl"), (3, 1, "DMRGBackendImpl")] if quick else [(3, 3, "MPSBackendImpl"), (4, 2, "MPSBackendImpl"), (5, 1, "MPSBackendImpl"), (3, 1, "DMRGBackendImpl"), (4, 1, "DMRGBackendImpl")]
+    for n, steps, cls in sweeps:
+        out.append(
+            Case(
+                f"snapshot_consistency_{cls}_n{n}_steps{steps}",
+                snapshot_consistency(n, steps, cls),
+                covers=COVERS_SWEEP,
+                bounds={"atoms": n, "time_steps": steps, "implementation": cls, "autosave schedule": "every subset of save_simulation calls being due (symbolic clock)"},
+                canaries=["resume_redoes_a_step"],
+                conc_samples=4,
+                weight=4**n,
+                max_paths=100000,
+                deadline_s=1500,
             )
         )
     out.append(
